@@ -130,7 +130,11 @@ func genSegments(r *rand.Rand) map[uint8]Segment {
 	}
 	if r.Intn(8) == 0 {
 		// entries outside 1..3 belong to no protocol field: ignored, whatever they hold
-		m[[]uint8{0, 4, 9, 255}[r.Intn(4)]] = Segment{HHmm{18, 0}, HHmm{17, 0}}
+		stray := Segment{HHmm{18, 0}, HHmm{17, 0}}
+		if r.Intn(2) == 0 {
+			stray = Segment{HHmm{8, 30}, HHmm{9, 45}} // well formed, and still no business of the request
+		}
+		m[[]uint8{0, 4, 9, 255}[r.Intn(4)]] = stray
 	}
 	return m
 }
